@@ -37,6 +37,8 @@ Definition rel_close (a b : Qc) : bool := Qc_leb (Qc_abs (a - b)) (Q2Qc (1 # 100
                 c["snr"] = [float(rng.choice([0, 10, 20, -10])) for _ in range(n)]
             else:
                 c["snr"] = [rng.choice([1.0, 2.0, 4.0, 0.5]) for _ in range(n)]
+            if mode != "std" and rng.random() < 0.3:
+                c["also_std"] = rng.choice([3.0, 1.0, 0.25, 0.0])     # "the given std when NO SNR is given": with an snr, std plays no part
             cases.append(c)
         # a per-sample snr / std given as a ONE-element array-like for a longer signal (np.atleast_1d(cfg), a one-row column): it
         # broadcasts — every sample gets its own draw with that scale (size is the signal's shape, not the scale's)
@@ -85,8 +87,9 @@ Definition rel_close (a b : Qc) : bool := Qc_leb (Qc_abs (a - b)) (Q2Qc (1 # 100
                 if c["mode"] == "std":
                     r = P.noise_gauss(a, std=(np.array([c["std"]]) if c.get("std_array") and not c["list_input"] else [c["std"]] if c.get("std_array") else c["std"]))
                 else:
-                    r = P.noise_gauss(a, snr=snr, snr_in_db=c["mode"].startswith("db"))
-                    P.noise_gauss(a, snr=snr, snr_in_db=c["mode"].startswith("db"))     # same arguments again: same scale expected
+                    kw_ = {"std": c["also_std"]} if "also_std" in c else {}
+                    r = P.noise_gauss(a, snr=snr, snr_in_db=c["mode"].startswith("db"), **kw_)
+                    P.noise_gauss(a, snr=snr, snr_in_db=c["mode"].startswith("db"), **kw_)     # same arguments again: same scale expected
             return {"out": np.asarray(r, dtype=float).tolist(), "calls": calls[:1], "second": calls[1:],
                     "input_changed": not np.array_equal(np.asarray(a, dtype=float), a0) or (snr0 is not None and not np.array_equal(np.asarray(snr, dtype=float), snr0))}
         except Exception as e:
